@@ -136,6 +136,9 @@ func (r *pluginsRun) runCase(op string, chain []plgSlot) {
 	for i, sl := range chain {
 		r.stubs[i].set(sl.out)
 		ops := []string{"CloseProxy"} // registered for something else
+		if op == "CloseProxy" {
+			ops = []string{"Login"}
+		}
 		if sl.reg {
 			ops = []string{op}
 		}
@@ -179,6 +182,23 @@ func (r *pluginsRun) runCase(op string, chain []plgSlot) {
 		if err == nil {
 			final = out.ProxyName
 		}
+	}
+	if op == "CloseProxy" {
+		// notifications gate nothing: every registered plugin hears about the proxy whatever the others answered
+		_ = m.CloseProxy(&plugin.CloseProxyContent{CloseProxy: msg.CloseProxy{ProxyName: "v0"}})
+		seenIdx := []int{}
+		for i := range chain {
+			for range r.stubs[i].take() {
+				seenIdx = append(seenIdx, i+1)
+			}
+		}
+		ch := []map[string]any{}
+		for _, sl := range chain {
+			ch = append(ch, map[string]any{"reg": sl.reg, "out": sl.out})
+		}
+		r.sink.Emit("drv", "plg.closecase", "chain", ch, "seen", seenIdx)
+		r.stats["case"]++
+		return
 	}
 	seen := [][]int{}
 	// consultation order: stubs are consulted sequentially, so per-stub logs in index order give the order
@@ -231,6 +251,7 @@ func (r *pluginsRun) component(sample int) {
 		for _, op := range plgOps {
 			r.runCase(op, ch)
 		}
+		r.runCase("CloseProxy", ch)
 	}
 }
 
@@ -240,13 +261,14 @@ func (r *pluginsRun) system() {
 	st := map[string]*stub{}
 	ops := append([]string{}, plgOps...)
 	ops = append(ops, "CloseProxy")
+	ops = append(ops, "CloseProxy2") // a second plugin registered for close notifications, after the first
 	for i, op := range ops {
 		st[op] = newStub(100 + i)
 	}
 	base := env.FreeBlock(4)
 	srv, err := env.StartServer(func(c *v1.ServerConfig) {
 		for _, op := range ops {
-			c.HTTPPlugins = append(c.HTTPPlugins, v1.HTTPPluginOptions{Name: "p-" + op, Addr: "http://" + st[op].ln.Addr().String(), Path: "/h", Ops: []string{op}})
+			c.HTTPPlugins = append(c.HTTPPlugins, v1.HTTPPluginOptions{Name: "p-" + op, Addr: "http://" + st[op].ln.Addr().String(), Path: "/h", Ops: []string{strings.TrimSuffix(op, "2")}})
 		}
 		c.UserConnTimeout = 1
 		c.Transport.HeartbeatTimeout = 90
@@ -365,7 +387,8 @@ func (r *pluginsRun) system() {
 		wc.Close()
 		st["NewWorkConn"].set("same")
 		// --- close notifications: one proxy closed by message, one by session end
-		st["CloseProxy"].set("same")
+		st["CloseProxy"].set(dec) // whatever the first one answers, the second one is told too
+		st["CloseProxy2"].set("same")
 		_, _ = ap.NewProxy(&msg.NewProxy{ProxyName: "qq", ProxyType: "stcp", Sk: "k"}, 3*time.Second)
 		_ = ap.CloseProxy("pp")
 		time.Sleep(50 * time.Millisecond)
@@ -377,7 +400,14 @@ func (r *pluginsRun) system() {
 			notified = append(notified, q.tag)
 		}
 		sort.Strings(notified)
-		r.sink.Emit("drv", "plg.close", "expected", []string{"pp", "qq"}, "notified", notified)
+		r.sink.Emit("drv", "plg.close", "expected", []string{"pp", "qq"}, "notified", notified, "plugin", 1, "decision", dec)
+		r.stats["sys"]++
+		notified = []string{}
+		for _, q := range st["CloseProxy2"].take() {
+			notified = append(notified, q.tag)
+		}
+		sort.Strings(notified)
+		r.sink.Emit("drv", "plg.close", "expected", []string{"pp", "qq"}, "notified", notified, "plugin", 2, "decision", dec)
 		r.stats["sys"]++
 	}
 }
